@@ -14,7 +14,7 @@
    All three are FALSE of the faithful model of the unchanged code (D3); the refutations below are
    vm_compute evaluations of the shrunk witnesses found by the search (each replays on the real code). *)
 From Coq Require Import String List.
-From PM Require Import Tree Syntax Syntax_proofs_C05.
+From PM Require Import Tree Syntax Syntax_proofs_C05 Syntax_proofs_C05b.
 Import ListNotations.
 
 (*  L: x=y*z;   x=y, y=z*z;   x=-(-y);   x=-(int)y;   (int)x++;   x+y;  *)
@@ -39,10 +39,20 @@ Theorem C05_converse_refuted :
   exists f, wf_pyc f = true /\ is_func f = true /\ c05_bad f <> [] /\ full f = true.
 Proof. exact converse_refuted. Qed.
 
-(* proved for all trees: the rewriting of `x = <unary op> e` either applies a rule (and then only
-   discards the operand of ! / sizeof) or warns; it never silently does nothing.  Missing for a full
-   C05_no_skip_partial: the induction relating the positions Coverage inspects to the positions the
-   dispatch visits, to be done on the repaired gate. *)
+(* PROVED for every schema-respecting function tree, of any size and nesting depth: if the gate accepts f
+   and the statements along the positions the analysis visits (function body, blocks, branches, loop
+   bodies) are of the forms the analysis dispatches on -- [plain_func]: no label, no comma expression,
+   no bare expression statement, and on the right of an assignment sign / ++ / -- only applied to an
+   atom -- then NO statement is sent to the warn-and-skip path, no for-loop is silently skipped (gate and
+   analysis use the same loop_compat) and no assert of binary_op fails ([NL]: no KUnsupported / KForSkip /
+   KRaise event).  This is the gate/analysis agreement on assignments, operators, casts, calls, loops
+   and conditionals; the excluded forms are exactly the refuted ones above. *)
+Theorem C05_no_skip_partial :
+  forall f, wf_pyc f = true -> is_func f = true -> full f = true -> plain_func f = true -> NL (func_events f).
+Proof. exact no_skip_partial. Qed.
+
+(* the rewriting of `x = <unary op> e` either applies a rule (and then only discards the operand of
+   ! / sizeof) or warns; it never silently does nothing *)
 Theorem C05_unary_asgn_partial :
   forall u rp,
     unary_asgn_events u rp = [Ev KUnsupported []] \/
@@ -54,4 +64,5 @@ Print Assumptions C05_no_skip_refuted.
 Print Assumptions C05_no_dropped_effect_refuted.
 Print Assumptions C05_no_effect_in_conditions_refuted.
 Print Assumptions C05_converse_refuted.
+Print Assumptions C05_no_skip_partial.
 Print Assumptions C05_unary_asgn_partial.
